@@ -8,6 +8,7 @@ Import ListNotations.
 Open Scope Z_scope.
 
 (** score at t = change score between X[t-b:t] and X[t:t+b] for b <= t <= n-b, 0 elsewhere *)
+From SK Require Import Check.Scores Check.MwCheck Proofs.CheckerSoundness Proofs.ValidCuts.
 Theorem C08_scores : forall CS b n t, (t < n)%nat ->
   length (mw_scores CS b n) = n /\
   nthZ (mw_scores CS b n) t = if ((b <=? t)%nat && (t + b <=? n)%nat)%bool then CS (t - b)%nat t (t + b)%nat else 0.
@@ -63,3 +64,25 @@ Print Assumptions C08_changepoints_above_threshold.
 Print Assumptions C08_reversal.
 Print Assumptions C08_ext.
 Print Assumptions C08_left_window_refuted.
+
+(** ---- added: statements re-derived from the lemma files by tools/append_props.py ---- *)
+Theorem C08_scores_checker_sound : forall c : mw_case, mw_scores_ok c = true -> length (mc_scores c) = mc_n c /\ (forall t : nat, (t < mc_n c)%nat -> (mc_b c <= t)%nat -> (t + mc_b c <= mc_n c)%nat -> nthZ (mc_scores c) t = cs_agg (mc_score c) (t - mc_b c) t (t + mc_b c)) /\ (forall t : nat, (t < mc_b c)%nat \/ (mc_n c < t + mc_b c)%nat -> nthZ (mc_scores c) t = 0) /\ mc_scores c = mw_scores (cs_agg (mc_score c)) (mc_b c) (mc_n c).
+Proof. exact @mw_scores_ok_sound. Qed.
+
+Theorem C08_wellformedness_checker_sound : forall c : mw_case, mw_wf_ok c = true -> StronglySorted lt (mc_cpts c) /\ (forall i j : nat, (i < j < length (mc_cpts c))%nat -> (nthN (mc_cpts c) i < nthN (mc_cpts c) j)%nat) /\ (forall cp : nat, In cp (mc_cpts c) -> ((mc_b c <= cp)%nat /\ (cp + mc_b c <= mc_n c)%nat) /\ mc_thr c < nthZ (mc_scores c) cp).
+Proof. exact @mw_wf_ok_sound. Qed.
+
+Theorem C08_model_equality_checker_sound : forall c : mw_case, mw_model_eq c = true -> mw (cs_agg (mc_score c)) (mc_b c) (mc_n c) (mc_thr c) (mc_mdi c) = (mc_scores c, mc_cpts c).
+Proof. exact @mw_model_eq_sound. Qed.
+
+Theorem C08_reversal_checker_sound : forall (n : nat) (sc screv : list Z), mw_reversal_ok (n, sc, screv) = true -> forall t : nat, (1 <= t < n)%nat -> nthZ screv t = nthZ sc (n - t).
+Proof. exact @mw_reversal_ok_sound. Qed.
+
+Theorem C08_only_valid_cuts_matter : forall (CS1 CS2 : nat -> nat -> nat -> Z) (b n : nat) (thr : Z) (mdi : nat), (forall t : nat, (b <= t)%nat -> (t + b <= n)%nat -> CS1 (t - b)%nat t (t + b)%nat = CS2 (t - b)%nat t (t + b)%nat) -> mw CS1 b n thr mdi = mw CS2 b n thr mdi.
+Proof. exact @mw_ext_valid. Qed.
+
+Print Assumptions C08_scores_checker_sound.
+Print Assumptions C08_wellformedness_checker_sound.
+Print Assumptions C08_model_equality_checker_sound.
+Print Assumptions C08_reversal_checker_sound.
+Print Assumptions C08_only_valid_cuts_matter.
